@@ -1,6 +1,7 @@
 CONSTANTS
   Bs = {3, 5}
   Dims = {1, 5, 16}
+  DimsX = {5}
   MaxS = 3
   PCs = {1, 2}
 INIT Init
